@@ -396,8 +396,19 @@ class OpsMixin:
                 parts.append(v.value)
             else:
                 val = self.resolve(self.eval(v.value, env))
-                if v.conversion == 114 or v.format_spec is not None:  # !r or format spec
+                spec = None
+                if v.format_spec is not None:
+                    fs = v.format_spec
+                    if isinstance(fs, ast.JoinedStr) and len(fs.values) == 1 and isinstance(fs.values[0], ast.Constant):
+                        spec = fs.values[0].value
+                    else:
+                        return SOpaque("f-string")
+                if v.conversion == 114 or spec not in (None, "", "d", "s"):  # !r or an unmodelled format spec
                     return SOpaque("f-string")
+                if spec == "d" and not isinstance(val, (int, SInt)):
+                    raise RaiseSig(SExc(exc_class("ValueError")), self.lineno)
+                if spec == "s" and isinstance(val, (int, SInt)) and not isinstance(val, bool):
+                    raise RaiseSig(SExc(exc_class("ValueError")), self.lineno)
                 if isinstance(val, str):
                     parts.append(val)
                 elif isinstance(val, SStr) and val.kind == "str":
